@@ -57,7 +57,6 @@ pub struct KnownFinding {
     pub property: String,
     pub status: String,
     pub signature: String,
-    pub note: String,
 }
 
 pub fn load_known(ctx: &Ctx) -> Vec<KnownFinding> {
@@ -78,7 +77,6 @@ pub fn load_known(ctx: &Ctx) -> Vec<KnownFinding> {
             property: f["property"].as_str().unwrap_or("").to_string(),
             status: f["status"].as_str().unwrap_or("").to_string(),
             signature: f["signature"].as_str().unwrap_or("").to_string(),
-            note: f["note"].as_str().unwrap_or("").to_string(),
         })
         .collect()
 }
